@@ -13,21 +13,21 @@ theorem flatten_nil_of_all_nil (l : List (List Nat)) (h : ∀ (i : Nat) (g : Lis
 
 /-- adders that are before their state check or finished contribute nothing to the tallies -/
 theorem tally_zero_of_idle {f : Adder → Nat} (s : S)
-    (hf : ∀ a : Adder, (a.pc = .state ∨ a.pc = .done ∨ a.pc = .panicked) → f a = 0)
-    (hall : ∀ (i : Nat) (a : Adder), s.adders[i]? = some a → a.pc = .state ∨ a.pc = .done ∨ a.pc = .panicked) :
+    (hf : ∀ a : Adder, (a.pc = .state ∨ a.pc = .done) → f a = 0)
+    (hall : ∀ (i : Nat) (a : Adder), s.adders[i]? = some a → a.pc = .state ∨ a.pc = .done) :
     tally f s.adders = 0 :=
   tally_eq_zero f (fun i a ha => hf a (hall i a ha))
 
-/-- **core of `Close waits`**: when `trigger = 0` and no Add call is between its state check and
-    its return, the ring and all shards are empty, the worker holds nothing, and every getter id
-    is accounted for outside the queue -/
-theorem idle_all_handled (s : S) (hG : Good s) (hc : s.emptyAdds = 0) (ht : s.trigger = 0)
-    (hall : ∀ (i : Nat) (a : Adder), s.adders[i]? = some a → a.pc = .state ∨ a.pc = .done ∨ a.pc = .panicked) :
+/-- when `trigger = 0` and no Add call is between its state check and its return, the ring and all
+    shards are empty, the worker holds nothing, and every getter id is accounted for outside the queue -/
+theorem idle_all_handled (s : S) (hG : Good s) (ht : s.trigger = 0)
+    (hall : ∀ (i : Nat) (a : Adder), s.adders[i]? = some a → a.pc = .state ∨ a.pc = .done) :
     s.ring = [] ∧ (∀ (sh : Nat) (g : List Nat), s.getters[sh]? = some g → g = []) ∧ s.work = [] ∧
-    (∀ id : Nat, tally (aGts id) s.adders + s.ignored.count id + s.lost.count id + s.skipped.count id
+    (∀ id : Nat, tally (aGts id) s.adders + s.ignored.count id + s.skipped.count id
         + s.invoked.count id = if id < s.nextId then 1 else 0) := by
-  obtain ⟨hR, hP⟩ := hG.rp hc
-  have hb : tally aBetw s.adders = 0 := tally_zero_of_idle s (by intro a h; simp [aBetw]; rcases h with h | h | h <;> simp [h]) hall
+  have hR := hG.rg
+  have hP := hG.pd
+  have hb : tally aBetw s.adders = 0 := tally_zero_of_idle s (by intro a h; simp [aBetw]; rcases h with h | h <;> simp [h]) hall
   have t1 := hG.tr.t1
   have t2a := hG.tr.t2a
   have t2b := hG.tr.t2b
@@ -50,7 +50,7 @@ theorem idle_all_handled (s : S) (hG : Good s) (hc : s.emptyAdds = 0) (ht : s.tr
     intro sh g hg
     have hp := hP.p1 sh g hg
     have h1 : tally (aPend sh) s.adders = 0 :=
-      tally_zero_of_idle s (by intro a h; simp [aPend]; rcases h with h | h | h <;> simp [h]) hall
+      tally_zero_of_idle s (by intro a h; simp [aPend]; rcases h with h | h <;> simp [h]) hall
     have h2 : wHoldEntry s sh = 0 := by
       simp only [wHoldEntry]; split
       · rename_i h; exfalso; apply hnh; rcases h.1 with h | h <;> simp [h]
@@ -74,18 +74,18 @@ theorem idle_all_handled (s : S) (hG : Good s) (hc : s.emptyAdds = 0) (ht : s.tr
 /-- nothing pending once no Add call and no worker can move, in an in-contract execution -/
 theorem quiescent_settled (s : S) (hG : Good s) (hc : InContract s) (hq : QuiescentQ s) :
     s.trigger = 0 ∧ s.wpc = .idle ∧
-    (∀ (i : Nat) (a : Adder), s.adders[i]? = some a → a.pc = .done ∨ a.pc = .panicked) := by
-  obtain ⟨hsz, he, _⟩ := hc
-  have hA := quiescent_adders s hG he hsz hq
-  have hW := quiescent_worker s hG he hsz hq
-  obtain ⟨c1, c2, c3, c4⟩ := quiescent_tails s hq
+    (∀ (i : Nat) (a : Adder), s.adders[i]? = some a → a.pc = .done) := by
+  have hsz : 0 < s.size := hc
+  have hA := quiescent_adders s hG hsz hq
+  have hW := quiescent_worker s hG hsz hq
+  obtain ⟨c1, c2, c3⟩ := quiescent_tails s hq
   refine ⟨?_, hW, hA⟩
   have d1 := hG.ex.d1
   have t3 := hG.tr.t3
   have hrun : tally aRun s.adders = 0 :=
-    tally_eq_zero _ (fun i a ha => by rcases hA i a ha with h | h <;> simp [aRun, h])
+    tally_eq_zero _ (fun i a ha => by simp [aRun, hA i a ha])
   have hsp : tally aSpawn s.adders = 0 :=
-    tally_eq_zero _ (fun i a ha => by rcases hA i a ha with h | h <;> simp [aSpawn, h])
+    tally_eq_zero _ (fun i a ha => by simp [aSpawn, hA i a ha])
   have : ¬ 0 < s.trigger := by
     intro h
     have := d1 h
@@ -94,11 +94,11 @@ theorem quiescent_settled (s : S) (hG : Good s) (hc : InContract s) (hq : Quiesc
 
 /-- a state in which every Add has returned, no worker and no Close is in flight, is quiescent -/
 theorem quiescent_of_settled (s : S)
-    (hA : s.adders.all (fun a => decide (a.pc = .done ∨ a.pc = .panicked)) = true) (hw : s.wpc = .idle)
-    (hc : s.tRecheck = 0 ∧ s.tRun = 0 ∧ s.tSpawn = 0 ∧ s.tCas = 0 ∧ s.cCas = 0 ∧ s.cState = 0 ∧ s.cTrig = 0 ∧ s.cStore = 0) :
+    (hA : s.adders.all (fun a => decide (a.pc = .done)) = true) (hw : s.wpc = .idle)
+    (hc : s.tRecheck = 0 ∧ s.tRun = 0 ∧ s.tSpawn = 0 ∧ s.cCas = 0 ∧ s.cwin = none) :
     Quiescent s := by
   intro a ha
-  obtain ⟨c1, c2, c3, c4, c5, c6, c7, c8⟩ := hc
+  obtain ⟨c1, c2, c3, c5, c6⟩ := hc
   cases a with
   | add n => cases ha
   | close => cases ha
@@ -111,10 +111,10 @@ theorem quiescent_of_settled (s : S)
       have hm : a ∈ s.adders := List.mem_of_getElem? hget
       have := List.all_eq_true.mp hA a hm
       simp at this
-      rcases this with h | h <;> simp [h]
+      simp [this]
   | wk n e => simp [step, stepWorker, hw]
-  | tail pc => cases pc <;> simp [step, stepTail, c1, c2, c3, c4]
-  | closer pc => cases pc <;> simp [step, stepCloser, c5, c6, c7, c8]
+  | tail pc => cases pc <;> simp [step, stepTail, c1, c2, c3]
+  | closer pc => cases pc <;> simp [step, stepCloser, c5, c6]
 
 /-- the state a schedule leads to (for concrete witnesses and non-vacuity examples) -/
 def final (n : Nat) (acts : List Act) : S := (run (init n) acts).getD (init n)
